@@ -85,6 +85,8 @@ def main(argv=None):
         new_classes.setdefault(sig, []).append((idx, seed, plan, od))
     replays = []
     for sig in sorted(new_classes):
+        print("class %s: %d run(s)" % (sig, len(new_classes[sig])))
+    for sig in sorted(new_classes):
         cases = [c for c in new_classes[sig] if c[2] is not None]
         if not cases or len(replays) >= 4:
             continue
